@@ -106,6 +106,42 @@ def dispatch(drv, prop, tier, args):
         return run_r2(drv, prop, tier, args)
     if prop == "C18":
         return run_c18(drv, prop, tier, args)
+    if prop == "C05":
+        # TLC explores model/Session.tla; its labelled state graph is replayed edge by edge by the harness
+        w = 3 if tier == "thorough" else 2
+        tdir = os.path.join(drv.ROOT, "target", "tlc")
+        os.makedirs(tdir, exist_ok=True)
+        import shutil
+        shutil.copy(os.path.join(drv.ROOT, "model", "Session.tla"), tdir)
+        cfg_txt = open(os.path.join(drv.ROOT, "model", "Session.cfg")).read().replace("CONSTANT W = 2", f"CONSTANT W = {w}")
+        open(os.path.join(tdir, "Session.cfg"), "w").write(cfg_txt)
+        for f in ("graph.dot", "edges.jsonl", "edges.stats.json"):
+            if os.path.exists(os.path.join(tdir, f)):
+                os.remove(os.path.join(tdir, f))
+        t0 = time.time()
+        p = subprocess.run(["tlc", "-workers", "4", "-dump", "dot,actionlabels", "graph.dot", "-config", "Session.cfg", "Session.tla"], cwd=tdir, capture_output=True, text=True)
+        out = p.stdout + p.stderr
+        if "Model checking completed. No error has been found." not in out:
+            sys.stderr.write(out[-4000:])
+            print("MACHINERY-ERROR TLC did not complete cleanly on model/Session.tla (the MODEL violates its own invariants or TLC failed) - no verdict about the code", file=sys.stderr)
+            return 2
+        import re
+        m = re.search(r"(\d+) states generated, (\d+) distinct states found", out)
+        c = subprocess.run([sys.executable, os.path.join(drv.ROOT, "model", "dot2edges.py"), "graph.dot", "edges.jsonl"], cwd=tdir, capture_output=True, text=True)
+        if c.returncode != 0:
+            sys.stderr.write(c.stdout + c.stderr)
+            print("MACHINERY-ERROR cannot convert the TLC graph", file=sys.stderr)
+            return 2
+        stats = json.loads(c.stdout.strip().splitlines()[-1])
+        stats.update({"W": w, "tlc_states_generated": int(m.group(1)) if m else None, "tlc_distinct_states": int(m.group(2)) if m else None,
+                      "tlc_invariants": ["TypeOK", "I1_NoncesUsedOnce", "I2_ExhaustionLatched", "I3_AcceptedInOrder", "I3b_ReceiverNotAhead", "I1t_NoReuse"], "tlc_wall_s": round(time.time() - t0, 1)})
+        json.dump(stats, open(os.path.join(tdir, "edges.stats.json"), "w"))
+        os.remove(os.path.join(tdir, "graph.dot"))
+        print(f"[check] TLC: {stats}", file=sys.stderr)
+        extra = [] if "--replay" in args else ["--cases", os.path.join(tdir, "edges.jsonl")]
+        if "--replay" in args:
+            extra = ["--cases", os.path.join(tdir, "edges.jsonl")]
+        return harness(drv, prop, tier, args, extra_args=extra)
     if prop == "C17":
         tdir, out = drv.build(guard_on=True, extra=["--bin", "hpke-mc"])   # for R1's transcript (hpke-mc C17-expect)
         if tdir is None:
